@@ -51,6 +51,9 @@ def put_args(rng, c, p, v, dv, puts):
     With a value destructor every put brings a fresh value object; without one, a third of the puts store NULL, a
     value object used before, or repeat an earlier put exactly (same key object, same value object)."""
     r = rng.random()
+    if dv and r < 0.12:
+        puts.append((c, p, 0))               # NULL is a value like any other: its entry is displaced (and "destroyed") like the rest
+        return c, p, v
     if dv or r < 0.67 or not puts:
         v += 1
         puts.append((c, p, v))
@@ -153,7 +156,7 @@ def run(ctx):
                 "at least 4 puts and one find or remove")
     ctx.assumptions += [
         "allocation cannot fail (aws_mem_acquire aborts on OOM), so put cannot fail",
-        "user hash and equality are consistent (both look at the key's class only); with a value destructor installed value objects are fresh per put, without one they may repeat or be NULL",
+        "user hash and equality are consistent (both look at the key's class only); with a value destructor installed value objects are fresh per put or NULL, without one they may repeat or be NULL",
         "a replaced entry whose key is the same object as the new key is not 'displaced': that key object stays in the table",
         "state is observed through the public iteration list and element count only (no extra lookups on an lru cache)",
         "model constants: 3 classes x 2 key objects, max <= 2 (quick) / 3 (thorough) in the exhaustive model",
